@@ -14,6 +14,14 @@ from .. import facts, hirq
 from ..hirq import walk, kind, callee, where, peel, PathEnum, exits
 
 LEVEL = "other"
+
+# "Every successful parse yields a balanced, properly nested token stream" is produced by ParserState: rule() pushes and
+# links Start/End, rule()/sequence() truncate on failure, look-aheads may not write the queue. Those clauses are decided
+# by C03's RULE / REWIND / QUEUEW / SNAP rules, which are re-run here (parser_state.rs is an anchor of C04).
+DEPENDS = [
+    ("C03", {"configs": ["default"],
+             "why": "token stream well-formedness is established by ParserState::rule / sequence / look-ahead"}),
+]
 PS = "pest::parser_state::ParserState"
 QT = "pest::iterators::queueable_token::QueueableToken"
 PAIR = "pest::iterators::pair::Pair"
